@@ -17,10 +17,65 @@ theorem Sim.tblpre {cfg : Cfg} {d : RState} {m : Mon} (hs : Sim cfg d m) : TblPr
 
 theorem firstViol_none {α} : firstViol (none : Option α) none = none := rfl
 
+/-- a POST that is not answered yet is not judged; every other answer is judged as before -/
+theorem chkAnswerOp_of_O {cfg : Cfg} {fl : Faults} {tbl : List MSess} {op : Op} {st : St}
+    (h : chkAnswerO cfg fl tbl op.req st = none) : chkAnswerOp cfg fl tbl op st = none := by
+  unfold chkAnswerOp
+  split
+  · split
+    · rfl
+    · exact h
+  · exact h
+
+theorem chkLogOp_eq {cfg : Cfg} {pend : List (Tag × Name)} {op : Op} {st : St} {log : List LogEnt}
+    (h : ∀ n f, op ≠ .body n f) : chkLogOp cfg pend op st log = chkLog cfg op.req st log := by
+  cases op <;> first | rfl | exact absurd rfl (h _ _)
+
+theorem chkLogOp_nil (cfg : Cfg) (pend : List (Tag × Name)) (op : Op) (st : St) : chkLogOp cfg pend op st [] = none := by
+  unfold chkLogOp
+  split
+  · unfold chkBodyLog; split <;> simp [firstSome]
+  · unfold chkLog; cases op.req <;> simp [firstSome]
+
+/-- the model's snapshot shows no session whose close is stuck and no armed timer of a session that is gone -/
+theorem chkClose_model {cfg : Cfg} {st : State} (hi : Inv st)
+    (hk : ∀ e ∈ st.tbl, ∃ ns nr, EOk cfg st.now ns nr e) : chkClose (showMap st) (showStale st) = none := by
+  have h1 : firstSome (fun (e : MapEnt) => if e.closing && e.busy == 0 then some (CloseClause.stuck e.name) else none)
+      (showMap st) = none := by
+    apply firstSome_none
+    intro x hx
+    rw [showMap_eq] at hx
+    obtain ⟨e, he, rfl⟩ := List.mem_map.mp hx
+    have hm := List.mem_filter.mp he
+    obtain ⟨ns, nr, hke⟩ := hk e hm.1
+    have hr : e.removed = false := by
+      have := hke.inMap; rw [hm.2] at this
+      cases hr : e.removed with
+      | false => rfl
+      | true => rw [hr] at this; cases this
+    cases hc : e.closing with
+    | false => simp [entOf, hc]
+    | true =>
+      have := hke.quiet hc hr
+      have hb := hke.busy
+      have : (e.busy + e.initBusy == 0) = false := by simp; omega
+      simp [entOf, hc, this]
+  have h2 : showStale st = [] := by
+    unfold showStale
+    rw [List.map_eq_nil_iff, List.filter_eq_nil_iff]
+    intro e he hx
+    simp only [Bool.and_eq_true, Bool.not_eq_true'] at hx
+    have := ((hi.good e he).unpublished hx.1).1
+    rw [this] at hx
+    cases hx.2
+  unfold chkClose
+  rw [h1, h2]
+  rfl
+
 /-- `monStep` reports nothing when every check is silent. -/
 theorem monStep_viol_none {cfg : Cfg} {m : Mon} {op : Op} {o : Obs}
     (h1 : chkAnswerO cfg (effFaults cfg m) (m.tbl.map (expire cfg (nowAfter m op))) op.req o.status = none)
-    (h2 : chkLog cfg op.req o.status o.log = none)
+    (h2 : chkLogOp cfg m.pend op o.status o.log = none)
     (h3 : chkMint cfg (m.tbl.map (expire cfg (nowAfter m op))) op.req o.status o.hdr = none)
     (h5a : (scanMap cfg (nowAfter m op) op.req o.status o.hdr
       (bookDone (nowAfter m op)
@@ -36,10 +91,11 @@ theorem monStep_viol_none {cfg : Cfg} {m : Mon} {op : Op} {o : Obs}
         (bookAnswer cfg (effFaults cfg m) (nowAfter m op) (tagOf m op) (m.tbl.map (expire cfg (nowAfter m op))) m.pend op o.status).2 o.done).1
       o.map).1 = none)
     (h5d : chkSrv cfg (o.map.map (·.name)) o.srv = none)
-    (h5e : chkNoId cfg op.req o.status o.hdr = false) :
+    (h5e : chkNoId cfg op.req o.status o.hdr = false)
+    (h6 : chkClose o.map o.stale = none) :
     (monStep cfg m op o).viol = none := by
   simp only [monStep]
-  rw [h1, h2, h3, h5a, h5b, h5c, h5d, h5e]
+  rw [chkAnswerOp_of_O h1, h2, h3, h5a, h5b, h5c, h5d, h5e, h6]
   simp [firstViol]
 
 /-- the monitor's state after a record, field by field -/
@@ -73,6 +129,7 @@ theorem pendOk_counters {d : RState} (h : PendOk d) {ns na : Nat} (h1 : d.nslow 
   cases hk : p.kind with
   | slow a b => rw [hk] at this; exact ⟨this.1, this.2.1, Nat.le_trans this.2.2.1 h1, this.2.2.2⟩
   | run a b => rw [hk] at this; exact ⟨this.1, this.2.1, Nat.le_trans this.2.2.1 h1, this.2.2.2⟩
+  | upl a b c => rw [hk] at this; exact ⟨this.1, Nat.le_trans this.2 h2⟩
   | del i f =>
     rw [hk] at this
     obtain ⟨⟨n, hn, hle⟩, hl⟩ := this
@@ -91,7 +148,7 @@ theorem sim_quiet {cfg : Cfg} {d : RState} {m : Mon} (hs : Sim cfg d m) (op : Op
     (hfault : faultsAfter m op st = m.faults)
     (hnoid : chkNoId cfg op.req st none = false)
     (hns : d.nslow ≤ (countersAfter m op st).1) (hna : d.nasync ≤ (countersAfter m op st).2) :
-    let o : Obs := { status := st, hang := hang, map := showMap d.st, srv := showSrv d.st }
+    let o : Obs := { status := st, hang := hang, map := showMap d.st, srv := showSrv d.st, stale := showStale d.st }
     (monStep cfg m op o).viol = none ∧
     Sim cfg { d with nslow := (countersAfter m op st).1, nasync := (countersAfter m op st).2 } (monStep cfg m op o).mon := by
   intro o
@@ -102,7 +159,7 @@ theorem sim_quiet {cfg : Cfg} {d : RState} {m : Mon} (hs : Sim cfg d m) (op : Op
   constructor
   · apply monStep_viol_none
     · rw [hexp]; exact hans
-    · exact chkLog_nil _ _ _
+    · exact chkLogOp_nil _ _ _ _
     · rfl
     · show (scanMap cfg (nowAfter m op) op.req st none _ (showMap d.st)).2 = none
       rw [hexp, hnotick, hbook, hslots, ← hnotick, hbd, htc.1]
@@ -111,6 +168,7 @@ theorem sim_quiet {cfg : Cfg} {d : RState} {m : Mon} (hs : Sim cfg d m) (op : Op
       rw [hexp, hnotick, hbook, hslots, ← hnotick, hbd, htc.1]; exact htc.2.2.1
     · exact htc.2.2.2.1
     · exact hnoid
+    · exact chkClose_model hs.inv (fun e he => ⟨_, _, hs.eok e he⟩)
   · obtain ⟨e1, e2, e3, e4, e5, e6, e7⟩ := monStep_mon cfg m op o
     apply sim_finish (tbl2 := m.tbl) (d' := { d with nslow := (countersAfter m op st).1, nasync := (countersAfter m op st).2 }) hpre hs.eok hs.cfg_eq hs.stateful
     · rw [e1]
